@@ -60,3 +60,22 @@ impl Random {
         (self.bit_buf & 1) == 1
     }
 }
+
+/// Verification hooks (`--cfg rosu_pp_verif`): read / restore the xorshift state.
+#[cfg(rosu_pp_verif)]
+impl Random {
+    pub const fn verif_state(&self) -> [u32; 4] {
+        [self.x, self.y, self.z, self.w]
+    }
+
+    pub const fn verif_from_state(state: [u32; 4]) -> Self {
+        Self {
+            x: state[0],
+            y: state[1],
+            z: state[2],
+            w: state[3],
+            bit_buf: 0,
+            bit_idx: 32,
+        }
+    }
+}
